@@ -159,7 +159,7 @@ Proof.
 Qed.
 Print Assumptions C12_structure_for_every_capacity.
 
-(** SetOptions as it was before fix 3f6f771 ([dstep_untrimmed]: the options were stored, nothing
+(** SetOptions as it was before fix 4af396d ([dstep_untrimmed]: the options were stored, nothing
     was evicted): the invariant survived only histories that never lower the capacity below the
     current size ... *)
 Theorem C12_untrimmed_setoptions_ok_if_never_lowered : forall names_of cap ops,
@@ -312,7 +312,7 @@ Proof.
   repeat constructor; cbn; try discriminate; reflexivity.
 Qed.
 
-(** the stale write-back of the handshake: before fix ff0fef7 it stored its whole copy, so a tag
+(** the stale write-back of the handshake: before fix 12d489e it stored its whole copy, so a tag
     merged between the handshake's read and its write-back was dropped again; now the tag stays
     and only the staple changes (replayed on the real code, class "stale-writeback-tags") *)
 Example C12_stale_writeback_keeps_tags :
